@@ -7,7 +7,7 @@ import numpy as np
 import pandas as pd
 from typing_extensions import deprecated
 
-from swcgeom.core.swc_utils.base import SWCNames, Topology, get_dsu, get_names, traverse
+from swcgeom.core.swc_utils.base import SWCNames, Topology, get_dsu, get_names
 from swcgeom.utils import DisjointSetUnion
 
 __all__ = [
@@ -50,17 +50,11 @@ def is_sorted(topology: Topology) -> bool:
     In a sorted topology, parent samples should appear before any child
     samples.
     """
-    flag = True
-
-    def enter(idx: int, parent: int | None) -> int:
-        nonlocal flag
-        if parent is not None and idx < parent:
-            flag = False
-
-        return idx
-
-    traverse(topology=topology, enter=enter)
-    return flag
+    # Compare every row with its own parent instead of walking down from
+    # node 0: a walk sees only the first tree of a forest and does not
+    # terminate on a table containing a cycle.
+    ids, pids = np.asarray(topology[0]), np.asarray(topology[1])
+    return bool(np.all((pids == -1) | (pids < ids)))
 
 
 def has_cyclic(topology: Topology) -> bool:
